@@ -300,7 +300,7 @@ def plan(tier, seed, workdir):
         body = CORE.format(lo=lo, hi=min(n, lo + step))
         body += hgen.harness('pool', 'k: int', [f'{lo} <= k < {min(n, lo + step)}'], core_call='core_pool(k)')
         path = hgen.write_module(workdir, f'c13_pool{lo:03d}', body, stub=False)
-        hgen.ch_tasks(p, path, 'pool', timeout, est=20, family='E1 float corner pool', range=[lo, min(n, lo + step)])
+        hgen.ch_tasks(p, path, 'pool', timeout, est=20, family='E1 float corner pool', range=[lo, min(n, lo + step)], enum={'k': list(range(lo, min(n, lo + step)))})
     body = CORE.format(lo=0, hi=0)
     body += hgen.harness('int', 'i: int', ['-70 <= i <= 70'], core_call='core_int(i)')
     erange = 330 if tier == 'quick' else 420
@@ -313,7 +313,8 @@ def plan(tier, seed, workdir):
             body = CORE.format(lo=0, hi=0)
             body += hgen.harness('sci', 'm: int, e: int', ['1 <= m <= 3', f'{elo} <= e < {elo + 110}'], core_call=f'core_sci(m, e, {neg})')
             path = hgen.write_module(workdir, f'c13_sci_{"n" if neg else "p"}_{elo + erange:03d}', body, stub=False)
-            hgen.ch_tasks(p, path, 'sci', timeout, est=30, family='E1 solver-chosen mantissa/exponent text', neg=neg, exponents=[elo, elo + 110])
+            hgen.ch_tasks(p, path, 'sci', timeout, est=30, family='E1 solver-chosen mantissa/exponent text', neg=neg, exponents=[elo, elo + 110],
+                          enum={'m': [1, 2, 3], 'e': list(range(elo, elo + 110))})
     p.rule = ('2 z3 regular-language lemmas on the live clean-up and literal regexes; CrossHair conditions over a solver-indexed float corner '
               'pool, symbolic ints, solver-chosen m e<exp> texts and near-miss texts')
     p.bounds = ['|T| <= 30 characters in the lemmas; repr grammar over-approximates real reprs (validated on 400 reprs incl. corner list)',
